@@ -349,6 +349,10 @@ func rejectErr(status int) error {
 	if status == 0 {
 		return errors.New("plain rejection")
 	}
+	if status == -1 { // a rejection that brings headers and a reason but no status of its own: answered as 500
+		return ws.RejectConnectionError(ws.RejectionReason("rejected by callback"),
+			ws.RejectionHeader(ws.HandshakeHeaderString("X-Reject: because\r\n")))
+	}
 	return ws.RejectConnectionError(ws.RejectionStatus(status), ws.RejectionReason("rejected by callback"),
 		ws.RejectionHeader(ws.HandshakeHeaderString("X-Reject: because\r\n")))
 }
